@@ -33,7 +33,7 @@ RULE = (
     "round trip through a file after a restart or one minimal-format round trip"
 )
 LEVEL_TEXT = (
-    "Seeded stateful histories through the storage seam with process restarts (only files survive), randomised format threshold, ZANJ layout knobs and clock; every loaded dataset is compared value by value (canonicalised arrays, config fields, collected-metadata counts) with a plain-data model recorded before the operation. Inputs include hand-assembled datasets (stale counts, stripped or collected metadata, shared and re-ordered maze objects of reloaded datasets), grids wider than 128 cells kept cheap, endpoint lists long enough to be stored as external archive members, collections built with shared and with copied member configurations, every format written through the disk seam, saved forms loaded twice, the saved form of an equal donor dataset edited everywhere (entries, items, array contents) before the round trip; one interpreter slot in three runs under python -O. Sampling, not proof.",
+    "Seeded stateful histories through the storage seam with process restarts (only files survive), randomised format threshold, ZANJ layout knobs and clock; every loaded dataset is compared value by value (canonicalised arrays, config fields, collected-metadata counts) with a plain-data model recorded before the operation. Inputs include hand-assembled datasets (stale counts, stripped or collected metadata, shared and re-ordered maze objects of reloaded datasets), grids wider than 128 cells kept cheap, endpoint lists long enough to be stored as external archive members, collections built with shared and with copied member configurations, collections with an empty member under thresholds on either side of the member and collection sizes (dealt, one history in fifteen), every format written through the disk seam, saved forms loaded twice, the saved form of an equal donor dataset edited everywhere (entries, items, array contents) before the round trip; one interpreter slot in three runs under python -O. Sampling, not proof.",
     "Trusted: stdlib zipfile/NumPy; the storage seam is fault-free here (faults are C11's business).",
 )
 
@@ -482,8 +482,35 @@ def gen_history(rng: random.Random, tier: str) -> dict:
 OPTIMIZE_SLOTS = {"quick": [2], "thorough": [2]}  # one interpreter slot in three runs under `python -O` (asserts stripped)
 
 
+def gen_collection_history(rng: random.Random) -> dict:
+    """the class the statement names explicitly - "collections, whose members may be empty when the full format is selected" -
+    is too rare in the free swarm (3-4 per 450 histories), so it is dealt: a collection of two non-empty datasets and one
+    filtered down to nothing, with the process-wide format threshold on either side of the member sizes and of the
+    collection's total size, round-tripped in memory and through a file, before and after a restart"""
+    t = rng.choice([None, 1, 2, 3, 5, 8, 100])
+    ops: list = [["threshold", t]]
+    c0 = _ds.rand_cfgspec(rng, max_n=5, max_mazes=8, filters=False, rich_endpoints=False)
+    c2 = _ds.rand_cfgspec(rng, max_n=5, max_mazes=6, filters=False, rich_endpoints=False)
+    ops.append(["make", "s0", c0])
+    ops.append(["filter", "s0", "s1", rng.choice([{"name": "truncate_count", "args": [0], "kwargs": {}}, {"name": "path_length", "args": [10**6], "kwargs": {}}])])
+    ops.append(["make", "s2", c2])
+    if rng.random() < 0.4:
+        ops.append(["threshold", rng.choice([None, 1, 2, 3, 5, 8, 100])])
+    members = ["s0", "s1", "s2"]
+    rng.shuffle(members)
+    if rng.random() < 0.3:
+        members = [m for m in members if m != rng.choice(["s0", "s2"])]
+    ops.append(["mkcoll", "c0", members, rng.choice(["shared", "copied"])])
+    ops.append(["mem", "c0", "serialize"])
+    ops.append(["save", "c0", "a.zanj", {"compress": rng.random() < 0.6, "external_array_threshold": rng.choice([256, 16, 0]), "how": "serialize"}])
+    ops.append(["read", "a.zanj", "MazeDataset.read", False])
+    ops.append(["restart"])
+    ops.append(["read", "a.zanj", "MazeDataset.read", True])
+    return {"ops": ops, "clock": {"t0": float(rng.randrange(400_000_000, 4_000_000_000)), "steps": [0.0, 1.0, 0.5], "mem": rng.choice([0, 255])}}
+
+
 def gen_specs(rng: random.Random, tier: str, n: int) -> list[dict]:
-    return [dict(gen_history(rng, tier), seed=rng.getrandbits(48), slot=i % 3) for i in range(n)]
+    return [dict(gen_collection_history(rng) if i % 15 == 4 else gen_history(rng, tier), seed=rng.getrandbits(48), slot=i % 3) for i in range(n)]
 
 
 def run(spec: dict, ctx) -> dict:
